@@ -60,8 +60,8 @@ Proof. exact two_nodes_same_sublog_agree. Qed.
 (* locality alone: handling a message of round r on two node states that agree on round r (and on
    identity and verification switch) yields the same outcome for round r *)
 Theorem C08_process_message_local :
-  forall now a b m, lagree (m_round m) a b ->
-  rrel (m_round m) (process_message now {| h_st := a; h_tr := [] |} m) (process_message now {| h_st := b; h_tr := [] |} m).
+  forall put now a b m, lagree (m_round m) a b ->
+  rrel (m_round m) (process_message put now {| h_st := a; h_tr := [] |} m) (process_message put now {| h_st := b; h_tr := [] |} m).
 Proof. exact process_message_local. Qed.
 
 (* non-vacuity: two rounds interleaved on one board; round 9 after the whole log is round 9 after
